@@ -419,7 +419,9 @@ def check(run, F, tier):
                 continue
             n8 += 1
             ws = [e for e in p.effects if e[0] == "write" and conn.field_of_write(e) == "pingreq_server_keep_alive_ms"]
-            if not any(w[3][0] == "agg" and w[3][2] == "Some" for w in ws):
+            # the value in force when the handler returns is the announced one: the last write on the path is Some(..)
+            # (recording it and then clearing it again is the same loss)
+            if not ws or not (ws[-1][3][0] == "agg" and ws[-1][3][2] == "Some"):
                 bad8 = p
         if n8 == 0:
             r8.violation("anchor", "no accepted CONNACK path that sees a Server Keep Alive property (anchor lost)")
